@@ -402,8 +402,14 @@ def rule_invalid_arg_guards(eng, rep, ctx):
         hit = weak = None
         for s, gs in site_guards.items():
             for a in gs:
-                if isinstance(a.lhs, ast.Call) and param_key(eng, a.lhs) == key and const_value(a.rhs) == lit and a.op in ("lt", "le"):
+                if op in ("lt", "le") and isinstance(a.lhs, ast.Call) and param_key(eng, a.lhs) == key and const_value(a.rhs) == lit and a.op in ("lt", "le"):
                     if a.op == op:
+                        hit = (s, a)
+                    else:
+                        weak = (s, a)
+                # upper thresholds: `params(key) >= lit` is the atom `lit <= params(key)`; `>` would let the boundary value through
+                if op == "ge" and isinstance(a.rhs, ast.Call) and param_key(eng, a.rhs) == key and const_value(a.lhs) == lit and a.op in ("lt", "le"):
+                    if a.op == "le":
                         hit = (s, a)
                     else:
                         weak = (s, a)
